@@ -49,8 +49,8 @@ PLANS["C04"] = {
 
 PLANS["C05"] = {
     "jobs": {
-        "quick": [("", "release", 8704), ("", "dev", 4352)],
-        "thorough": [("", "release", 4352 * 40), ("", "dev", 4352 * 6)],
+        "quick": [("", "release", 8704 * 8), ("", "dev", 4352 * 8)],
+        "thorough": [("", "release", 4352 * 400), ("", "dev", 4352 * 60)],
     },
     "rule": "a case is one cell of the finite grid width 1..128 x {little,big} x {signed,unsigned} x bit offset 0..7 (4096 cells, "
             "enumerated completely in every run; later rounds repeat the grid with fresh random values) with ~210 values "
@@ -70,7 +70,7 @@ PLANS["C05"] = {
 PLANS["C09"] = {
     "prepare": stages.c09_arith_vectors,
     "jobs": {
-        "quick": [("", "release", 84000), ("", "dev", 16800), ("pyvec", "release", 40000), ("pyvec", "dev", 40000)],
+        "quick": [("", "release", 84000 * 4), ("", "dev", 16800 * 4), ("pyvec", "release", 40000), ("pyvec", "dev", 40000)],
         "thorough": [("", "release", 2800000), ("", "dev", 560000), ("pyvec", "release", 1000000), ("pyvec", "dev", 1000000)],
     },
     "rule": "a case is one of the 28 words with 48 operand tuples drawn from boundary integers (0, +-1, +-2, 2^k, 2^k+-1, i64/i128 "
@@ -91,7 +91,7 @@ PLANS["C09"] = {
 PLANS["C18"] = {
     "stages": {"quick": [], "thorough": [stages.miri_stage("C18", "", 30)]},
     "jobs": {
-        "quick": [("", "release", 301 * 7 * 5), ("", "dev", 301 * 7 * 2)],
+        "quick": [("", "release", 301 * 7 * 40), ("", "dev", 301 * 7 * 16)],
         "thorough": [("", "release", 301 * 7 * 300), ("", "dev", 301 * 7 * 60)],
     },
     "rule": "a case is a byte string of length idx mod 301 (every length 0..300 in every run; content random / all-zero / all-ones / boundary-digit (Z85 digits 0 and 84, 5- and 6-bit groups all-zero or all-one) / "
@@ -115,7 +115,7 @@ G1_RULE = ("a case is a random program from the control-flow grammar (literals, 
 
 PLANS["C01"] = {
     "jobs": {
-        "quick": [("", "release", 300000), ("", "dev", 40000)],
+        "quick": [("", "release", 300000 * 3), ("", "dev", 40000 * 3)],
         "thorough": [("", "release", 6000000), ("", "dev", 600000)],
     },
     "rule": G1_RULE + "; the real eval() run is compared with the direct structural evaluation of the AST on result kind, "
@@ -237,7 +237,7 @@ PLANS["C14"] = {
 
 PLANS["C12"] = {
     "jobs": {
-        "quick": [("", "release", 400000), ("", "dev", 40000), ("mixed", "release", 8000)],
+        "quick": [("", "release", 400000 * 2), ("", "dev", 40000 * 2), ("mixed", "release", 8000 * 2)],
         "thorough": [("", "release", 3000000), ("", "dev", 300000), ("mixed", "release", 60000)],
     },
     "rule": "a case is a sequence of 10..60 collection operations over a pool of live values (maps: insert remove get foreach, map "
@@ -260,7 +260,7 @@ PLANS["C12"] = {
 
 PLANS["C13"] = {
     "jobs": {
-        "quick": [("", "release", 400000), ("", "dev", 40000)],
+        "quick": [("", "release", 400000 * 4), ("", "dev", 40000 * 4)],
         "thorough": [("", "release", 16000000), ("", "dev", 1600000)],
     },
     "rule": "7 of 8 cases: one eligible dictionary word (all 166 non-immediate native words except the tag words, the printing/"
@@ -307,7 +307,7 @@ PLANS["C10"] = {
 
 PLANS["C11"] = {
     "jobs": {
-        "quick": [("", "release", 300000), ("", "dev", 30000)],
+        "quick": [("", "release", 300000 * 5), ("", "dev", 30000 * 5)],
         "thorough": [("", "release", 12000000), ("", "dev", 1200000)],
     },
     "rule": "6 of 8 cases: a constant expression e (arithmetic and stack words, multi-valued, vectors, strings, maps and bit-strings, "
@@ -338,7 +338,7 @@ PLANS["C16"] = {
     "stages": {"quick": [], "thorough": [stages.miri_stage("C16", "", 120)]},
     "prepare": stages.c16_float_vectors,
     "jobs": {
-        "quick": [("", "release", 600000), ("", "dev", 60000)],
+        "quick": [("", "release", 600000 * 4), ("", "dev", 60000 * 4)],
         "thorough": [("", "release", 30000000), ("", "dev", 3000000)],
     },
     "rule": "4 of 5 cases: a text of 1..14 fragments (integers in every spelling up to and beyond the i128 range in decimal, 0x, 0b and "
@@ -365,7 +365,7 @@ PLANS["C16"] = {
 
 PLANS["C17"] = {
     "jobs": {
-        "quick": [("", "release", 400000), ("", "dev", 40000)],
+        "quick": [("", "release", 400000 * 3), ("", "dev", 40000 * 3)],
         "thorough": [("", "release", 16000000), ("", "dev", 1600000)],
     },
     "rule": "a case plants one failing token (10 build-time kinds: unknown words incl. multi-byte names, bad literals, unbalanced "
@@ -390,7 +390,7 @@ PLANS["C17"] = {
 
 PLANS["C06"] = {
     "jobs": {
-        "quick": [("", "release", 120000), ("", "dev", 24000)],
+        "quick": [("", "release", 120000 * 5), ("", "dev", 24000 * 5)],
         "thorough": [("", "release", 5000000), ("", "dev", 1000000)],
     },
     "rule": "a case is a sequence of 6..75 parsing words on one interpreter: open-bitstr of a 0..199-bit value cut out of a longer "
@@ -416,7 +416,7 @@ PLANS["C06"] = {
 
 PLANS["C07"] = {
     "jobs": {
-        "quick": [("", "release", 200000), ("", "dev", 30000)],
+        "quick": [("", "release", 200000 * 5), ("", "dev", 30000 * 5)],
         "thorough": [("", "release", 8000000), ("", "dev", 1200000)],
     },
     "rule": "a case is a record of 1..24 typed fields: integers of width 1..128 (signed and unsigned, through int!/uint! and the fixed "
